@@ -8,3 +8,10 @@ C05_ring_DEPS    := $(CSGSO) $(TOOLSSO)
 HARNESSES += C05_tools
 C05_tools_FLAGS :=
 C05_tools_LIBS  :=
+
+# free-running ThreadSanitizer pass (thorough tier): linked against the TSan build of the libraries
+HARNESSES += C05_race
+C05_race_FLAGS   := -fno-access-control -fsanitize=thread -g1
+C05_race_LDFLAGS := -fsanitize=thread -rdynamic
+C05_race_LIBS    := -L$(B)/votca-tsan/csg/src/libcsg -lvotca_csg -L$(B)/votca-tsan/tools/src/libtools -lvotca_tools -Wl,-rpath,$(B)/votca-tsan/csg/src/libcsg:$(B)/votca-tsan/tools/src/libtools
+C05_race_DEPS    := $(B)/votca-tsan/csg/src/libcsg/libvotca_csg.so $(B)/votca-tsan/tools/src/libtools/libvotca_tools.so
